@@ -117,6 +117,8 @@ type VC struct {
 	axioms      map[string][]*axiomRec
 	instDone    map[string]int
 	naxiom      int
+	taint       bool
+	nsecret     int
 	hyps        []func(at string)
 	parents     map[string][]string // heap array -> arrays it is defined from
 	axiomOf     map[string]*axiomRec
@@ -236,6 +238,10 @@ type World struct {
 	strInit   map[*ssa.Global]string
 	rpoCache  map[*ssa.Function][]*ssa.BasicBlock
 	prop      string
+	forceInline map[string]bool
+	secretRecv  string
+	taintRoots  map[string]bool
+	secrets   []string // byte-slice lvalues of the root receiver whose contents are secret (C18)
 	invariantMethods []string
 	unroll    int // >0: loops are unrolled this many times instead of cut (replay aid only)
 }
